@@ -584,7 +584,7 @@ Proof.
   revert st. induction ops as [|o ops IH]; intros st Hv Hd.
   - cbn. now rewrite app_nil_r.
   - cbn [no_damage forallb] in Hd. apply andb_true_iff in Hd as [Ho Hd].
-    cbn [fexec]. destruct o as [i ts s| |n|i|i|b]; try discriminate Ho.
+    cbn [fexec]. destruct o as [i ts s| |n|i|i|b|i|i]; try discriminate Ho.
     + unfold appends in Hv. cbn [flat_map app] in Hv. inversion Hv as [|? ? [Hts Hs] Hv']; subst.
       cbn [fst snd] in *. rewrite IH by assumption.
       unfold fstep. rewrite store_exec_ok by exact Hs. cbn [fst f_file].
@@ -593,6 +593,11 @@ Proof.
     + rewrite IH by assumption. reflexivity.
     + rewrite IH by assumption. reflexivity.
     + rewrite IH by assumption. reflexivity.
+    + rewrite IH by assumption. reflexivity.
+    + rewrite IH by assumption. f_equal. unfold fstep.
+      destruct (i_it match i_it (nth i (f_insts st) fresh_inst) with
+                     | ItFresh => _ | _ => _ end) as [| |n|]; try reflexivity.
+      destruct (nth_error _ n); reflexivity.
 Qed.
 
 (* Whatever instances did the appends, in whatever alternation, with loads and
